@@ -480,6 +480,12 @@ Section Num.
     | [] => None
     | _ :: sh => let m := tsize sh in Some (mkT sh (firstn m (skipn (i * m) (tdata x))))
     end.
+  (* jax.vmap(f)(x) over the leading axis of size n, as a Python loop: slice, apply, stack *)
+  Definition unstack (n : nat) (x : tensor A) : option (list (tensor A)) := mapM (fun i => slice_t i x) (seq 0 n).
+  Definition stack_t (n : nat) (xs : list (tensor A)) : tensor A :=
+    mkT (n :: tshape (hd (mkT [] []) xs)) (concat (map tdata xs)).
+  Definition vmap_t (f : tensor A -> tensor A) (n : nat) (x : tensor A) : option (tensor A) :=
+    match unstack n x with Some xs => Some (stack_t n (map f xs)) | None => None end.
   (* in_axes = eqx.if_array(0): arrays are sliced along axis 0, everything else is broadcast *)
   Fixpoint slice_tree (i : nat) (t : vtree) : option vtree :=
     match t with
@@ -490,8 +496,6 @@ Section Num.
     end.
   Definition arr_val (t : vtree) : tensor A := match t with Arr _ v => v | _ => mkT [] [] end.
   Definition children (t : vtree) : list vtree := match t with Node _ l | W _ l => l | _ => [] end.
-  Definition stack_t (n : nat) (xs : list (tensor A)) : tensor A :=
-    mkT (n :: tshape (hd (mkT [] []) xs)) (concat (map tdata xs)).
   (* out_axes = eqx.if_array(0): [t] is the first result, [ts] all of them *)
   Fixpoint stack_like (n : nat) (t : vtree) (ts : list vtree) : vtree :=
     match t with
